@@ -47,7 +47,25 @@ T = [
  ("C10b-stage0-caches-loop-over-frozen", "C10", "per-particle expression with stage 0 or 2 on a species with frozen particles", "MISSED",
   "overwriting per-particle expressions of stage 0/1/2 in sim/oracle_pairmods.py", "VIOLATION with a concrete scenario"),
  ("C11b-pid-counter-concatenated", "C11", "pids p and 10p+k, counters 10..19 and 0..9, both probes before either open", "caught by the correspondence (file names differ from the model's)",
-  "translator extracts the separator between pid and counter; theorem C11_name_format", "VIOLATION no-failing-input-found (real pids cannot be chosen by the harness); the name-format theorem breaks"),
+  "translator extracts the separator between pid and counter; theorem C11_name_format; then: harness/h_compiler_proc.cpp overrides getpid() (VERIF_FAKE_PID) and name-collision candidates (pid 2 counter 10 / pid 21 counter 0, pid 1 counter 11 / pid 11 counter 1) run on real processes in the race-witness patterns", "VIOLATION with a concrete schedule and process ids; the name-format theorem breaks as well"),
+ ("C03b-collision-name-counter-order", "C03", "a left-over temporary file with the process's own id and a counter it reaches; a second expression compiled afterwards in the same process",
+  "MISSED by C03 (the harness compiled one expression per forked process); caught by C11 with a concrete schedule (stale files, two functions in one process)",
+  "harness/h_parser.cpp `group` mode: 3-5 expressions compiled in ONE process and kept alive, with and without a left-over file; oracle in vlib/c03.py: every compiled function computes what it computes alone", "VIOLATION with the expression group as replay (C03 and C11)"),
+ ("C08b-receding-particle-no-hit-shortcut", "C08", "force towards a wall, velocity away from it, wall reached within the step", "MISSED (force runs never had a receding particle close to a wall)",
+  "scenario family `pullback` in sim/corr_walls.py; translate/t_hittime.py + PropsR/C08Force.lean (statement-level translation of solveHitTimeEquation, completeness / first-crossing theorems) + bit-for-bit validation against the real member function",
+  "VIOLATION with a concrete scenario; the translated definition changes and C08F_complete / C08F_first_crossing no longer build"),
+ ("C12b-srand48-instead-of-srand", "C12", "uran() in a runtime-compiled expression; runs started in different seconds", "caught (round 2)", "-", "VIOLATION with a concrete scenario; the entropy-site table theorem C12_sites breaks as well"),
+ ("C14b-record-addattribute-type-conflict-shortcut", "C14", "existing name requested with another type through a RECORD (Data::addAttribute)", "caught by the correspondence but no failing input (the conflict oracle only asked through the format)",
+  "conflict family of the property oracle alternates between DataFormat::addAttribute and Data::addAttribute", "VIOLATION with a concrete op sequence"),
+ ("C16b-square-static-cutoff-power", "C16", "two Square kernels with different cutoffs set up in one process", "caught without a failing input (the translator rejects the function-local static; the numerical oracle used one process per cutoff)",
+  "numerical oracle always runs, all kernel objects of all cutoffs in ONE process in shuffled order", "VIOLATION with a concrete evaluation (kernel, cutoff, objects created before)"),
+ ("C13b-samecell-free-frozen-colour-typo", "C13", "two species, frozen particles of the later-declared species, a free/frozen pair of the two species inside one cell", "caught (round 2); one worker of sim/corr_relabel.py crashed on a pair naming a non-existent particle",
+  "the pair-list comparison reports such a pair instead of raising", "VIOLATION with a concrete scenario (shifted run differs from the base run)"),
+ ("C17b-result-size-check-too-many-entries", "C17", "an expression with MORE entries than the module expects (vector for scalar, tensor for vector)", "caught (round 2): wrong-type expression mutants of sim/corr_invalid.py", "-", "VIOLATION with a concrete input"),
+ ("C18b-readnext-plus-sign-dropped", "C18", "a persistent scalar with |value| >= 1e6 (written with a signed exponent)", "caught (round 2): translator t_restart regenerates the token alphabet, C18_tokens / C18_tokens_plus_occurs no longer build; run B fails / restores other values", "-", "VIOLATION with a concrete system"),
+ ("C19b-minimum-image-break-instead-of-continue", "C19", "a non-periodic direction before a periodic one, a bond across that later periodic face", "caught (round 2): translator t_bonds regenerates the wrap loop, C19_current_periodic no longer builds; vectors differ on the real runs", "-", "VIOLATION with a concrete scenario"),
+ ("C20b-fpairvels-forceslot-first-second", "C20", "cross-species FPairVels naming its species in reverse colour order AND another integrator listed before the species' velocity-Verlet integrator", "MISSED (the velocity-Verlet integrator was always the first integrator of its species)",
+  "sim/corr_dyn.py lists another integrator before the velocity-Verlet one in a third of the cases; sim/corr_omp.py `slot_stress` rewrites every second scenario into that layout with reversed cross-species forces", "VIOLATION with a concrete scenario (copy vectors not zero / serial vs OpenMP)"),
  ("C15b-clear-keeps-free-slots", "C15", "delete, clear, refill to exactly the capacity, delete, new", "the check itself crashed on the aborted harness output (reported as no-failing-input-found)",
   "the reference oracle treats an assertion / abort of the real class as the failure it is", "VIOLATION with a concrete op sequence"),
  ("C20-mergecopies-second-slot-index", "C20", "OpenMP build, PairParticleScalar on a mixed species pair, differing per-species copy-slot counters", "caught", "-", "VIOLATION with a concrete scenario (serial vs OpenMP)"),
